@@ -397,10 +397,14 @@ func TestUnregister(t *testing.T) {
 			errbase.RegisterLeafDecoder(key, func(context.Context, string, []string, proto.Message) error { return errors.New("decoded") })
 		}, func() { errbase.RegisterLeafDecoder(key, nil) }},
 		{"wrapper", func() {
-			errbase.RegisterWrapperDecoder(key, func(_ context.Context, c error, _ string, _ []string, _ proto.Message) error { return errors.WithStack(c) })
+			errbase.RegisterWrapperDecoder(key, func(_ context.Context, c error, _ string, _ []string, _ proto.Message) error {
+				return errors.WithStack(c)
+			})
 		}, func() { errbase.RegisterWrapperDecoder(key, nil) }},
 		{"multi-cause", func() {
-			errbase.RegisterMultiCauseDecoder(key, func(_ context.Context, cs []error, _ string, _ []string, _ proto.Message) error { return errors.Join(cs...) })
+			errbase.RegisterMultiCauseDecoder(key, func(_ context.Context, cs []error, _ string, _ []string, _ proto.Message) error {
+				return errors.Join(cs...)
+			})
 		}, func() { errbase.RegisterMultiCauseDecoder(key, nil) }},
 	}
 	n := uint64(0)
